@@ -12,7 +12,7 @@ PROPERTY = "C10"
 BUDGET = {"quick": 400, "thorough": 500}
 RULE = ("One case = (grid shape, centre cell, radius); for it all 2 neighbourhood kinds x incl_center x ret_type "
         "{int,tuple} x centre representation {cell id, tuple, PositionComponent exact, PositionComponent with fractional "
-        "in-cell offsets} x entry point {specific method, get_neighbours(mode=)} are queried (64 calls) and compared with a "
+        "in-cell offsets, a PositionComponent object re-used after moving from another cell} x entry point {specific method, get_neighbours(mode=)} are queried (80 calls) and compared with a "
         "brute-force scan of all cells by Chebyshev/Manhattan distance in ascending cell order; the id form must be "
         "the row indices of the same cells in the world's position table. Also unknown mode -> KeyError, unknown "
         "ret_type / centre type -> TypeError. Non-trivial: ball clipped by a border, or radius >= 2, or non-cubic shape. "
@@ -62,6 +62,11 @@ def run_case(case):
         "pos": PositionComponent(None, model, cx, cy, cz),
         "posfrac": PositionComponent(None, model, cx + fx, cy + fy, cz + fz),
     }
+    # a component object that is queried at ANOTHER cell first and then moves to the centre (agents move, their
+    # PositionComponent object stays the same): the answer must follow the component's current value
+    prev = ((cx + 1) % ew, (cy + 1) % eh, (cz + 1) % ed)
+    moving = PositionComponent(None, model, *prev)
+    reprs["moved"] = moving
     clipped = False
     for mode in ("moore", "neumann"):
         if mode == "moore":
@@ -78,6 +83,13 @@ def run_case(case):
             for rname, rep in reprs.items():
                 for entry in ("specific", "generic"):
                     for ret, exp in ((tuple, exp_t), (int, exp_i)):
+                        if rname == "moved":
+                            moving.x, moving.y, moving.z = prev
+                            if entry == "specific":
+                                (env.get_moore_neighbours if mode == "moore" else env.get_neumann_neighbours)(moving, r, incl, ret)
+                            else:
+                                env.get_neighbours(moving, radius=r, incl_center=incl, ret_type=ret, mode=mode)
+                            moving.x, moving.y, moving.z = centre
                         if entry == "specific":
                             fn = env.get_moore_neighbours if mode == "moore" else env.get_neumann_neighbours
                             got = fn(rep, r, incl, ret)
